@@ -8,7 +8,8 @@
    library on every correspondence run), [H] = Keccak-256 (only its output length is used). *)
 From Coq Require Import String List NArith ZArith Lia Bool Arith.
 From Coq Require Import Init.Byte.
-From FFS Require Import Base.Res Base.Bytes EthTypes.Model EthTypes.Spec EthTypes.Proofs EthTypes.ProofsInt EthTypes.ProofsNum.
+From FFS Require Import Base.Res Base.Bytes EthTypes.Model EthTypes.Spec EthTypes.SpecBig EthTypes.Proofs EthTypes.ProofsInt EthTypes.ProofsNum
+  EthTypes.ProofsHex EthTypes.ProofsLimit EthTypes.ProofsBig.
 Import ListNotations.
 
 (* ---- 1. print form: "0x" + lower-case hex digits without leading zeros, value n (all n) ---- *)
@@ -26,6 +27,16 @@ Print Assumptions C19_hexuint64_print.
 Theorem C19_canonical_hex_unique : forall (s s' : bytes) (n : N), canonical_hex s n -> canonical_hex s' n -> s = s'.
 Proof. exact canonical_hex_unique. Qed.
 Print Assumptions C19_canonical_hex_unique.
+
+(* the executable print oracle of the correspondence run (result code 11: Coq's own HexString.of_N) IS
+   the model's text, and it is the canonical form: no unproved link on the print side *)
+Theorem C19_print_oracle_is_model : forall n : N, spec_hex n = prefix0x ++ text16 n.
+Proof. exact of_N_is_text16. Qed.
+Print Assumptions C19_print_oracle_is_model.
+
+Theorem C19_print_oracle_canonical : forall n : N, canonical_hex (spec_hex n) n.
+Proof. exact spec_hex_canonical. Qed.
+Print Assumptions C19_print_oracle_canonical.
 
 (* ---- 2. print/parse round trip, all n (all n < 2^64 for the 64-bit type) ---- *)
 Theorem C19_hexint_roundtrip : forall lex (n : N),
@@ -54,6 +65,30 @@ Theorem C19_parse_exact : forall lex (ty64 : bool) (t : bytes) (m e : Z) (b : by
 Proof. exact parse_exact. Qed.
 Print Assumptions C19_parse_exact.
 
+(* The exact boundary of the theorem above.  [spelling t m e l] is [denotes t m e] together with the
+   verdict l of math/big's library limits on that text (EthTypes/SpecBig.v, [big_limits_json]: no limit
+   for plain decimal / hex texts; for a text with a fraction or an exponent the written exponent must
+   fit int64 and - unless the mantissa is zero - |e| <= 10^6 and bitlen(mantissa) + e must be a
+   big.Float exponent (int32), e = written exponent - number of fraction digits).  Inside the limits the
+   verdict is exact; outside them the result is always an error.  The guard of C19_parse_exact lies
+   inside the limits, so that theorem is a corollary. *)
+Theorem C19_parse_exact_boundary : forall lex (ty64 : bool) (t : bytes) (m e : Z) (l : bool) (b : bytes),
+  lex_law lex -> spelling t m e l -> json_of t b ->
+  (l = true ->
+     (forall q, sci_is m e q -> in_range ty64 q = true -> parse_int ty64 lex b = Ok q) /     ((forall q, sci_is m e q -> in_range ty64 q = false) -> exists err, parse_int ty64 lex b = Err err)) /  (l = false -> exists err, parse_int ty64 lex b = Err err).
+Proof. exact parse_exact_lim. Qed.
+Print Assumptions C19_parse_exact_boundary.
+
+Theorem C19_spelling_is_denotes : forall (t : bytes) (m e : Z),
+  denotes t m e <-> exists l, spelling t m e l.
+Proof. intros t m e. split; [apply denotes_spelling|intros [l H]; exact (spelling_denotes t m e l H)]. Qed.
+Print Assumptions C19_spelling_is_denotes.
+
+Theorem C19_guard_within_limits : forall (t : bytes) (m e : Z) (l : bool),
+  spelling t m e l -> guard t e -> l = true.
+Proof. exact guard_within_limits. Qed.
+Print Assumptions C19_guard_within_limits.
+
 (* the safety half without any guard: whatever the size of the exponent or the length of the text, a
    spelling of the quantified classes is never accepted with a value other than the in-range integer
    it denotes (never rounded, never wrapped) *)
@@ -62,6 +97,23 @@ Theorem C19_parse_never_wrong : forall lex (ty64 : bool) (t : bytes) (m e : Z) (
   parse_int ty64 lex b = Ok q -> sci_is m e q /\ in_range ty64 q = true.
 Proof. exact parse_sound. Qed.
 Print Assumptions C19_parse_never_wrong.
+
+(* Safety over ALL texts, not only the spellings of the quantifier: whatever the document and whatever
+   the lexer returns for it, a value q is returned only for a text that math/big documents
+   ([go_denotes], EthTypes/SpecBig.v part B: Int.SetString(s, 0) syntax - optional sign '+'/'-', prefixes
+   0b 0o 0x in either case, a leading 0 for octal, single '_' between digits or after a prefix - or,
+   when the text is not of that syntax, a decimal floating-point text  [sign] digits [. digits]
+   [(e|E|p|P) [sign] digits]  with a decimal 'e' or a binary 'p' exponent), q is exactly the value that
+   text denotes, and q is in the range of the type.  Every other text is an error ("Inf" included). *)
+Theorem C19_text_never_wrong : forall (t : bytes) (q : Z), BigIntegerFromString t = Ok q -> go_denotes t q.
+Proof. exact big_go_denotes. Qed.
+Print Assumptions C19_text_never_wrong.
+
+Theorem C19_parse_never_wrong_any_text : forall lex (ty64 : bool) (b : bytes) (q : Z),
+  parse_int ty64 lex b = Ok q ->
+  exists t, (lex b = JNum t \/ lex b = JStr t) /\ go_denotes t q /\ in_range ty64 q = true.
+Proof. exact parse_sound_all. Qed.
+Print Assumptions C19_parse_never_wrong_any_text.
 
 (* the same for the text entry point (also used by the ABI input path): any sign, any size *)
 Theorem C19_big_integer_from_string_exact : forall (t : bytes) (m e : Z),
@@ -198,3 +250,58 @@ Qed.
 Example C19_nonvacuous_eip55 :
   AddressWithChecksum_String (fun _ => repeat xf0 32) (repeat xab 20) = Ok (ascii_bytes "0xAbAbAbAbAbAbAbAbAbAbAbAbAbAbAbAbAbAbAbAb"%string).
 Proof. vm_compute. reflexivity. Qed.
+
+(* the library limit: 1e1000000 is inside (exact 10^(10^6) for HexInteger, by C19_parse_exact_boundary), 1e1000001
+   is outside and therefore an error for both types; 0e9223372036854775808 is outside (exponent beyond int64) *)
+Example C19_nonvacuous_boundary :
+  let j k := mkJ false (ascii_bytes "1"%string) None (Some (false, 0%N, k)) in
+  let j1 := j (ascii_bytes "1000000"%string) in
+  let j2 := j (ascii_bytes "1000001"%string) in
+  spelling (jnum_text j1) (j_mant j1) (j_e j1) true /\ spelling (jnum_text j2) (j_mant j2) (j_e j2) false /\
+  jnum_text j2 = ascii_bytes "1e1000001"%string /\
+  (forall ty64, exists err, parse_int ty64 simple_lexer (jnum_text j2) = Err err) /\
+  big_limits_json (mkJ false (ascii_bytes "0"%string) None (Some (false, 0%N, ascii_bytes "9223372036854775808"%string))) = false /\
+  big_limits_json (mkJ false (ascii_bytes "0"%string) None (Some (false, 0%N, ascii_bytes "9223372036854775807"%string))) = true.
+Proof.
+  cbv zeta.
+  set (j1 := mkJ false (ascii_bytes "1"%string) None (Some (false, 0%N, ascii_bytes "1000000"%string))).
+  set (j2 := mkJ false (ascii_bytes "1"%string) None (Some (false, 0%N, ascii_bytes "1000001"%string))).
+  assert (W1 : jnum_wf j1 = true) by (vm_compute; reflexivity).
+  assert (W2 : jnum_wf j2 = true) by (vm_compute; reflexivity).
+  assert (L1 : big_limits_json j1 = true) by (vm_compute; reflexivity).
+  assert (L2 : big_limits_json j2 = false) by (vm_compute; reflexivity).
+  assert (S2 : spelling (jnum_text j2) (j_mant j2) (j_e j2) false) by (rewrite <- L2; apply sp_json; exact W2).
+  split; [rewrite <- L1; apply sp_json; exact W1|]. split; [exact S2|]. split; [vm_compute; reflexivity|].
+  split; [|split; vm_compute; reflexivity].
+  intros ty64.
+  assert (J : json_of (jnum_text j2) (jnum_text j2)) by (right; split; [reflexivity|apply json_text_is_number; exact W2]).
+  exact (proj2 (C19_parse_exact_boundary simple_lexer ty64 _ _ _ _ _ simple_lexer_law S2 J) eq_refl).
+Qed.
+
+(* texts outside the quantifier that math/big accepts: the model accepts them with the documented value
+   (so the hypothesis of C19_text_never_wrong is satisfiable in every class), "Inf" and "1_" are errors; and
+   the specification relation is inhabited as intended ("1.5p1" = 3 by its own rules) *)
+Example C19_nonvacuous_documented_texts :
+  BigIntegerFromString (ascii_bytes "+0X_fF"%string) = Ok 255%Z /\
+  BigIntegerFromString (ascii_bytes "-0b1_01"%string) = Ok (-5)%Z /\
+  BigIntegerFromString (ascii_bytes "0o17"%string) = Ok 15%Z /\
+  BigIntegerFromString (ascii_bytes "017"%string) = Ok 15%Z /\
+  BigIntegerFromString (ascii_bytes "08"%string) = Ok 8%Z /\
+  BigIntegerFromString (ascii_bytes "1_000"%string) = Ok 1000%Z /\
+  BigIntegerFromString (ascii_bytes "1p5"%string) = Ok 32%Z /\
+  BigIntegerFromString (ascii_bytes "+.5e1"%string) = Ok 5%Z /\
+  (exists err, BigIntegerFromString (ascii_bytes "Inf"%string) = Err err) /\
+  (exists err, BigIntegerFromString (ascii_bytes "1_"%string) = Err err) /\
+  go_denotes (ascii_bytes "1.5p1"%string) 3 /\ go_denotes (ascii_bytes "0x_1f"%string) 31.
+Proof.
+  repeat (split; [vm_compute; reflexivity|]).
+  split; [vm_compute; eauto|]. split; [vm_compute; eauto|].
+  split.
+  - apply (gd_float (mkF 0 (ascii_bytes "1"%string) (Some (ascii_bytes "5"%string)) (Some (byte_of_ascii "p"%char, 0%N, ascii_bytes "1"%string))));
+      vm_compute; reflexivity.
+  - apply gd_int. apply (gi _ false (ascii_bytes "0x_1f"%string) 31%N); [apply gs_none|].
+    apply (gim_prefix x30 x78 16%N (ascii_bytes "_1f"%string) (ascii_bytes "1f"%string) 31%N); try (vm_compute; reflexivity).
+    + apply (unsep_us x5f x31); [reflexivity|vm_compute; discriminate|].
+      apply unsep_dig; [vm_compute; discriminate|]. apply unsep_dig; [vm_compute; discriminate|apply unsep_nil].
+    + discriminate.
+Qed.
